@@ -60,7 +60,10 @@ impl BlobWriter for VersionedChecksummedBlobWriter {
         let data_len = usize::from_be_bytes([
             data[8], data[9], data[10], data[11], data[12], data[13], data[14], data[15],
         ]);
-        if data.len() != 8 + 8 + 32 + data_len {
+        // `data.len() >= 8 + 8 + 32` was checked above; subtracting on the left cannot overflow, whereas
+        // `8 + 8 + 32 + data_len` overflows `usize` for a length field >= 2^64 - 48 (panic with overflow
+        // checks, wrap-around and a bogus accept without).
+        if data.len() - (8 + 8 + 32) != data_len {
             return Err(format!("Invalid data length for {:?}: {}, expected {}", path, data.len(), data_len).into());
         }
         let checksum = &data[16..16 + 32];
